@@ -375,3 +375,26 @@ mod test {
         assert_eq!(input, expected)
     }
 }
+
+#[cfg(feature = "verif-hooks")]
+pub(crate) mod verif_local {
+    use super::*;
+
+    /// One item of `VersionChunkIter`: (kind `u`|`s`|`n`, value, zeros, source).
+    pub(crate) type Chunk = (char, usize, usize, String);
+
+    /// The items `VersionChunkIter::new(ident)` yields up to its first `None`.
+    pub(crate) fn chunks(ident: &str) -> Vec<Chunk> {
+        VersionChunkIter::new(ident)
+            .map(|c| match c {
+                VersionChunk::Underscore => ('u', 0, 0, "_".to_owned()),
+                VersionChunk::Str(s) => ('s', 0, 0, s.to_owned()),
+                VersionChunk::Number {
+                    value,
+                    zeros,
+                    source,
+                } => ('n', value, zeros, source.to_owned()),
+            })
+            .collect()
+    }
+}
